@@ -129,3 +129,44 @@ func H07_unsubscribe() {
 	vrtAssert("C07.no_delivery_after_unsuback", len(got) == wantN)
 	vrtObserve("after_unsub", len(got))
 }
+
+// H07_ack_order: the subscription changes take effect before the acknowledgement
+// is sent. A hook on the topic store runs at the moment the broker changes the
+// subscription: nothing of the acknowledgement may be on the wire yet, and a
+// publish accepted at that very moment (still subscribed) must reach the
+// client in front of the UNSUBACK, never behind it.
+func H07_ack_order() {
+	b := vrtBroker("mockSuccess")
+	a, _ := b.connect(vrtConnectPkt([]byte("a"), true))
+	w, _ := b.connect(vrtConnectPkt([]byte("w"), true))
+	var early []byte
+	vrtTopicsHook.onSubscribe = func(f []byte) {
+		vrtQuiesce() // let the sender drain whatever was queued so far
+		early = append(early, a.peerTake()...)
+	}
+	q := vrtByte("q")
+	vrtAssume(q <= 2)
+	ans := vrtExchange(a, &specPkt{Typ: specSUBSCRIBE, ID: 5, Topics: [][]byte{[]byte("t"), []byte("u")}, QoS: []byte{q, 0}})
+	vrtAssert("C07.no_suback_before_subscribed", len(early) == 0)
+	vrtAssert("C07.harness_suback", vrtBytesEq(ans, []byte{0x90, 4, 0, 5, q, 0}))
+	vrtTopicsHook.onSubscribe = nil
+	raced := false
+	vrtTopicsHook.onUnsubscribe = func(f []byte) {
+		if raced {
+			return
+		}
+		raced = true
+		vrtExchange(w, &specPkt{Typ: specPUBLISH, Topic: []byte("t"), Payload: []byte("racing")})
+	}
+	ans = vrtExchange(a, &specPkt{Typ: specUNSUBSCRIBE, ID: 6, Topics: [][]byte{[]byte("t")}})
+	pk, ok := vrtParse(ans)
+	vrtAssert("C07.stream_wellformed", ok)
+	vrtAssert("C07.unsuback_sent_once", vrtAnd(len(pk) >= 1, pk[len(pk)-1].Typ == specUNSUBACK))
+	for i := range pk {
+		if pk[i].Typ == specUNSUBACK {
+			vrtAssert("C07.nothing_delivered_after_unsuback", i == len(pk)-1)
+		}
+	}
+	vrtObserve("order", ans)
+	vrtReach("C07.ack_order")
+}
